@@ -115,6 +115,8 @@ THEOREMS = [
     "OllamaVerif.C06.wrapper_remove_then_clear",
     "OllamaVerif.C06.wrapper_remove_ok_refines",
     "OllamaVerif.C06.wrapper_copyPrefix_abs",
+    "OllamaVerif.C06.wrapper_setCausal_abs",
+    "OllamaVerif.C06.wrapper_canResume_sound",
     "OllamaVerif.C06.remove_then_clear",
     "OllamaVerif.C06.specRemove_then_clear",
     "OllamaVerif.C06.wrapper_clear_nonvacuous",
